@@ -68,12 +68,30 @@ def _worker_init(scratch, prop):
     if not getattr(eng, "ISOLATES", False) and not os.environ.get("MPSIM_NOFORK"):
         # Every simulated run is a forked child of this process: warm up imports, PLY tables and regex caches here, once,
         # with fixed scenarios (identical in every worker and in a replay process), so that children do not pay for it.
+        import signal
+
+        class _WarmupTimeout(BaseException):
+            pass
+
+        def _alarm(signum, frame):
+            raise _WarmupTimeout()
+
         for i in range(3):
+            old_handler = None
             try:
+                old_handler = signal.signal(signal.SIGALRM, _alarm)
+                signal.setitimer(signal.ITIMER_REAL, 5.0)      # changed code may loop forever: never hang the worker here
                 sc = eng.generate(prop, derive_rng(0, prop, i, "warmup"), i, "quick")
                 eng.execute(json.loads(json.dumps(sc)))
             except BaseException:  # noqa
                 pass
+            finally:
+                try:
+                    signal.setitimer(signal.ITIMER_REAL, 0)
+                    if old_handler is not None:
+                        signal.signal(signal.SIGALRM, old_handler)
+                except Exception:  # noqa
+                    pass
 
 
 def execute_isolated(eng, sc):
@@ -117,6 +135,16 @@ def run_chunk(prop, tier, master, indices, want_digests):
                     break
                 continue
             s = res.summary()
+            if any(v["sig"].endswith(".hang no-progress") for v in s["violations"]):
+                agg["hangs"] = agg.get("hangs", 0) + 1
+                if agg["hangs"] >= 3:
+                    agg["n"] += 1
+                    agg["n_violating_runs"] += 1
+                    agg["sig_counts"][s["violations"][0]["sig"]] = agg["sig_counts"].get(s["violations"][0]["sig"], 0) + 1
+                    agg["violations"].append({"index": index, "inv": s["violations"][0]["inv"], "sig": s["violations"][0]["sig"],
+                                              "detail": s["violations"][0]["detail"], "scenario": sc, "size": len(canon(sc))})
+                    agg["aborted_after_hangs"] = True
+                    break
             agg["n"] += 1
             agg["events"] += s["n_events"]
             for k in ("probes", "faults", "faults_cfg", "obs"):
@@ -302,6 +330,8 @@ def cmd_check(args):
             for k in ("state_keys", "schedule_keys", "case_keys"):
                 total[k] |= agg[k]
             total["digests"].update(agg["digests"])
+            if agg.get("aborted_after_hangs"):
+                total["aborted_after_hangs"] = True
             total["harness"].extend(agg["harness"])
             total["violations"].extend(agg["violations"])
             if len(total["samples"]) < 3:
@@ -331,7 +361,7 @@ def cmd_check(args):
         mismatches = []
         for i in range(det_n):
             a, b, c = total["digests"].get(i), det_pool.get(i), det_fresh.get(i)
-            if a is None and truncated:
+            if a is None and (truncated or total.get("aborted_after_hangs")):
                 continue
             if not (a == b == c) or a is None:
                 mismatches.append(i)
@@ -467,7 +497,7 @@ def cmd_check(args):
         sys.stdout.flush()
         # violations that replayed exactly in a fresh interpreter stand on their own
         return 1 if reported else 2
-    if total["n"] < runs:
+    if total["n"] < runs and not reported:
         print("HARNESS-ERROR: only %d of %d runs produced a result" % (total["n"], runs))
         return 2
     sys.stdout.flush()
